@@ -252,8 +252,36 @@ class Evaluator:
             return "".join(parts)
         return Unknown(type(e).__name__)
 
+    _SIGS = None
+
+    def signature_of(self, e):
+        """parameter names of the callee of call `e`, if every function of that name in the program (or the constructor of the class of that name) has the same ones"""
+        if Evaluator._SIGS is None or Evaluator._SIGS[0] is not self.p:
+            table = {}
+            for fn in self.p.all_functions():
+                ps = fn.params()
+                if fn.cls is not None and fn.kind not in ("static",):
+                    ps = ps[1:]
+                table.setdefault(fn.name, set()).add(tuple(ps))
+            for c in self.p.all_classes():
+                m = c.find_method("__init__")
+                if m is not None and hasattr(m, "params"):
+                    table.setdefault(c.name, set()).add(tuple(m.params()[1:]))
+            Evaluator._SIGS = (self.p, table)
+        fn = e.func
+        name = fn.attr if isinstance(fn, ast.Attribute) else (fn.id if isinstance(fn, ast.Name) else None)
+        sigs = Evaluator._SIGS[1].get(name, set())
+        return list(next(iter(sigs))) if len(sigs) == 1 else None
+
     def kwargs(self, e, env, f):
-        return {k.arg: self.ev(k.value, env, f) for k in e.keywords if k.arg}
+        """keyword arguments of a call, including positional ones whose parameter name is known (the canonical program passes arguments by position where it can)"""
+        out = {}
+        sig = self.signature_of(e) if e.args else None
+        if sig and not any(isinstance(a, ast.Starred) for a in e.args):
+            for name, a in zip(sig, e.args):
+                out[name] = self.ev(a, env, f)
+        out.update({k.arg: self.ev(k.value, env, f) for k in e.keywords if k.arg})
+        return out
 
     def call(self, e, env, f):
         fn = e.func
@@ -396,7 +424,7 @@ class NexusEvaluator(Evaluator):
         if src == "self._nexus.add":
             inner = e.args[0] if e.args else None
             if isinstance(inner, ast.Call):
-                ik = {k.arg: self.ev(k.value, env, f) for k in inner.keywords}
+                ik = self.kwargs(inner, env, f)
                 name = ik.get("name")
                 if isinstance(name, str):
                     g.add(name, ast.unparse(inner.func), ["<fit parameters>"] if name == "parameter_values" else [], where=self.where(e, f))
